@@ -226,10 +226,10 @@ func (s *seqState) apply(o *hop) *seqState {
 
 type checker struct {
 	relaxed bool // classification only: an `hf` operation may also be linearised as having taken effect
-	ops   []*hop
-	done  []bool
-	memo  map[string]struct{}
-	nodes int
+	ops     []*hop
+	done    []bool
+	memo    map[string]struct{}
+	nodes   int
 }
 
 func (c *checker) doneKey() string {
@@ -1225,9 +1225,13 @@ func main() {
 	}
 	n := 2000 * r.Scale
 	if r.Tier == "thorough" {
-		n *= 2
+		n = n * 3 / 2 // 60 000 histories
 	}
 	hangs := 0
+	largeEvery := 50
+	if r.Tier == "thorough" {
+		largeEvery = 200 // the large-store scenario is the expensive one under -race
+	}
 	for i := 0; i < n && hangs < 2; i++ {
 		rng, sub := r.Rng.Fork()
 		var res result
@@ -1241,6 +1245,10 @@ func main() {
 			res = runTorn(rng, r)
 		} else if i%40 == 29 {
 			res = runBatchFlip(rng, r)
+		} else if i%largeEvery == 13 {
+			res = runLarge(rng, r)
+		} else if i%50 == 33 {
+			res = runCommitClose(rng, r)
 		} else {
 			res = runStress(rng, r)
 		}
